@@ -50,12 +50,16 @@ enum Op {
     SetCodes(u64, Vec<&'static str>),
     /// update document `id`: name := this
     SetName(u64, &'static str),
+    /// remove document `id` (releases its unique values)
+    Remove(u64),
 }
 
 #[derive(Clone, Debug, PartialEq)]
 enum Ret {
     Id(u64),
     Updated,
+    /// remove returned the document (true) / found nothing (false)
+    Removed(bool),
     Rejected,
     OtherErr(String),
 }
@@ -127,6 +131,10 @@ impl Model {
                     false
                 }
             }
+            Op::Remove(id) => {
+                let had = self.docs.remove(id).is_some();
+                *ret == Ret::Removed(had)
+            }
         }
     }
 }
@@ -159,6 +167,10 @@ fn run_op(coll: &Collection, op: &Op) -> Ret {
                 Err(e) => classify(e),
             }
         }
+        Op::Remove(id) => match util::block_on(coll.remove(*id)) {
+            Ok(d) => Ret::Removed(d.is_some()),
+            Err(e) => classify(e),
+        },
     }
 }
 
@@ -283,7 +295,7 @@ fn exec_once(spec: &Spec, ch: &mut Chooser) -> Case {
             // itself refused later. What C04 states is judged instead: the accepted calls alone form
             // a conflict-free sequential order, every refusal is justified by a value some document
             // or some other call of the race holds or wants, and (below) the refused calls left no trace.
-            let accepted: Vec<Done> = done.iter().filter(|d| matches!(d.out, Ret::Id(_) | Ret::Updated)).cloned().collect();
+            let accepted: Vec<Done> = done.iter().filter(|d| matches!(d.out, Ret::Id(_) | Ret::Updated | Ret::Removed(_))).cloned().collect();
             let mut placed = vec![false; accepted.len()];
             let Some(fin) = linearize(spec, &accepted, &init, &mut placed) else {
                 case.fail = Some((
@@ -301,6 +313,7 @@ fn exec_once(spec: &Spec, ch: &mut Chooser) -> Case {
                         Op::Add(n, c) => (Some(n.to_string()), c.iter().map(|s| s.to_string()).collect()),
                         Op::SetCodes(_, c) => (None, c.iter().map(|s| s.to_string()).collect()),
                         Op::SetName(_, n) => (Some(n.to_string()), vec![]),
+                        Op::Remove(_) => (None, vec![]),
                     }
                 };
                 let (name, codes) = wanted(&spec.threads[d.thread][d.idx]);
@@ -376,6 +389,11 @@ fn specs() -> Vec<Spec> {
         s("setcodes-vs-setcodes", vec![("p", vec!["q"]), ("r", vec!["s"])], vec![vec![SetCodes(1, vec!["q", "x", "y"])], vec![SetCodes(2, vec!["y", "s"])]], vec![("c", vec!["x"]), ("d", vec!["y"])]),
         s("setname-vs-setname", vec![("p", vec!["q"]), ("r", vec!["s"])], vec![vec![SetName(1, "n")], vec![SetName(2, "n")]], vec![("n", vec!["t"]), ("p", vec!["u"]), ("r", vec!["v"])]),
         s("setname-vs-add", vec![("p", vec!["q"])], vec![vec![SetName(1, "n")], vec![Add("n", vec!["x"])]], vec![("p", vec!["u"]), ("c", vec!["x"])]),
+        // a holder is removed while another writer wants its values
+        s("remove-vs-add-code", vec![("p", vec!["q", "r"])], vec![vec![Remove(1)], vec![Add("b", vec!["q"])]], vec![("c", vec!["r"]), ("d", vec!["q"]), ("p", vec!["u"])]),
+        s("remove-vs-add-name", vec![("p", vec!["q"])], vec![vec![Remove(1)], vec![Add("p", vec!["x"])]], vec![("c", vec!["q"]), ("d", vec!["x"])]),
+        s("remove-vs-setcodes", vec![("p", vec!["q"]), ("r", vec!["s"])], vec![vec![Remove(1)], vec![SetCodes(2, vec!["s", "q"])]], vec![("c", vec!["q"]), ("p", vec!["u"])]),
+        s("remove-vs-add-vs-add", vec![("p", vec!["q"])], vec![vec![Remove(1)], vec![Add("b", vec!["q"])], vec![Add("p", vec!["y"])]], vec![("c", vec!["q"]), ("d", vec!["y"])]),
         // three writers
         s("three-adds", vec![], vec![vec![Add("a", vec!["x", "y"])], vec![Add("b", vec!["y", "z"])], vec![Add("c", vec!["z"])]], vec![("d", vec!["x"]), ("e", vec!["y"]), ("f", vec!["z"])]),
     ]
